@@ -1,0 +1,22 @@
+//go:build verif
+
+package verifiable
+
+// Thin wrappers used by the verification harness (/verif, property C14) to record
+// the outcome of the two validators called by the proof decoders in proof.go.
+// Compiled only with the build tag "verif"; they add no behaviour.
+
+// VerifValidateHexCoreClaim exposes validateHexCoreClaim.
+func VerifValidateHexCoreClaim(in string) error { return validateHexCoreClaim(in) }
+
+// VerifValidateCompSignature exposes validateCompSignature.
+func VerifValidateCompSignature(in string) error { return validateCompSignature(in) }
+
+// VerifDecodeMTP exposes decodeMTP (the guarded Merkle tree proof decoder).
+func VerifDecodeMTP(raw []byte) (interface{ MarshalJSON() ([]byte, error) }, error) {
+	p, err := decodeMTP(raw)
+	if err != nil || p == nil {
+		return nil, err
+	}
+	return *p, nil
+}
